@@ -124,10 +124,10 @@ func strip(v *V) *V {
 	}
 }
 
-// element is the view values.Equal has of a nested value: one ToLiquid.
+// element is the view values.Equal has of a nested value: ToLiquid (a drop that yields a drop is resolved in turn).
 func element(v *V) *V {
-	if v.Kind == 'D' {
-		return v.In
+	for v.Kind == 'D' {
+		v = v.In
 	}
 	return v
 }
